@@ -1,4 +1,4 @@
 ---- MODULE MC_err_t ----
 EXTENDS MachineRun
-Progs == ErrThorough
+Progs == ErrThorough(0)
 ====
